@@ -344,10 +344,12 @@ pub fn judge(c: &[u64], a: &[i128]) -> (Vec<(&'static str, &'static str)>, Vec<&
             5 => {
                 let (k, page, flags) = (op[1], op[2], op[3]);
                 match m.get(&(k, page)).copied() {
-                    Some((f, _)) => {
+                    Some((f, oldfl)) => {
                         if ok {
                             if res.get(1) != Some(&(page as i128)) { fail!("C11", "a successful update_flags must return the flush token of exactly its page"); }
-                            m.insert((k, page), (f, if k > 0 { flags | HUGE } else { flags }));
+                            // known finding F7b is sticky: PAT_HUGE_PAGE of a huge page sits in the address field, which update_flags keeps
+                            let taint = if k > 0 { oldfl & 0x1000 } else { 0 };
+                            m.insert((k, page), (f, if k > 0 { flags | HUGE | taint } else { flags }));
                         } else { fail!("C02", "update_flags of a mapped page of that size failed"); }
                     }
                     None => {
